@@ -207,9 +207,11 @@ class Bech32Decoder(Bech32DecoderBase):
         """
 
         # Decode string
+        # An empty data part is valid Bech32 (BIP-0173 test vector "a12uel5l")
         hrp_got, data = cls._DecodeBech32(addr,
                                           Bech32Const.SEPARATOR,
-                                          Bech32Const.CHECKSUM_STR_LEN)
+                                          Bech32Const.CHECKSUM_STR_LEN,
+                                          0)
         # Check HRP
         if hrp != hrp_got:
             raise ValueError(f"Invalid format (HRP not valid, expected {hrp}, got {hrp_got})")
